@@ -285,15 +285,179 @@ theorem domainOf_eq_domainPart (a : Bytes) : domainOf a = domainPart a := by
       · simp [hc]
       · simp [hc]
 
-theorem stripvdom_eq_named (es : List (Bytes × Bytes)) (recip : Bytes) :
-    stripvdom es recip = namedRecipient es recip := by
+theorem cmMember_eq_isLocal (ls : List Bytes) (d : Bytes) : cmMember ls d = isLocal ls d := by
+  unfold isLocal
+  induction ls with
+  | nil => simp [cmMember]
+  | cons l r ih => simp [cmMember, ih]
+
+theorem userCut_dash (es : List (Bytes × Bytes)) (pre t : Bytes) :
+    userCut es (pre, 45 :: t) = match cmLookup es t with
+      | some p => if !p.isEmpty && p == pre then some t else none
+      | none => none := by
+  unfold userCut
+  simp only [entryFor_eq_cmLookup]
+  cases cmLookup es t <;> rfl
+
+theorem userCut_other (es : List (Bytes × Bytes)) (pre t : Bytes) (c : Byte) (hc : c ≠ 45) :
+    userCut es (pre, c :: t) = none := by
+  unfold userCut
+  split
+  · rename_i rest heq
+    simp at heq
+    exact absurd heq.1 hc
+  · rfl
+
+theorem userCut_nil (es : List (Bytes × Bytes)) (pre : Bytes) : userCut es (pre, []) = none := by
+  simp [userCut]
+
+/-- the virtual-user loop finds the first cut the spec describes -/
+theorem userStripGo_eq (es : List (Bytes × Bytes)) (pre r : Bytes) :
+    userStripGo es pre r = ((splits r).map (fun x => (pre ++ x.1, x.2))).findSome? (userCut es) := by
+  induction r generalizing pre with
+  | nil => simp [userStripGo, splits]
+  | cons c t ih =>
+    have hmap : (List.map (fun x => (pre ++ x.1, x.2)) (List.map (fun x => (c :: x.1, x.2)) (splits t)))
+        = List.map (fun x => ((pre ++ [c]) ++ x.1, x.2)) (splits t) := by
+      simp [List.map_map, Function.comp_def]
+    simp only [splits, List.map_cons, List.findSome?_cons, List.append_nil, hmap, ← ih (pre ++ [c])]
+    by_cases hc : c = DASH
+    · subst hc
+      have := userCut_dash es pre t
+      simp only [DASH] at this ⊢
+      rw [this]
+      simp only [userStripGo, DASH, if_true]
+      cases hl : cmLookup es t with
+      | none => rfl
+      | some p =>
+        by_cases hp : (!p.isEmpty && p == pre) = true
+        · simp [hp]
+        · have hp' : (!p.isEmpty && p == pre) = false := by simpa using hp
+          simp [hp']
+    · rw [userCut_other es pre t c hc]
+      simp [userStripGo, hc]
+
+/-- dashes are the only places the virtual-user loop looks at -/
+theorem userStripGo_skip (es : List (Bytes × Bytes)) (pre p r : Bytes) (h : DASH ∉ p) :
+    userStripGo es pre (p ++ r) = userStripGo es (pre ++ p) r := by
+  induction p generalizing pre with
+  | nil => simp
+  | cons c t ih =>
+    have hc : c ≠ DASH := fun e => h (by simp [e])
+    have ht : DASH ∉ t := fun e => h (by simp [e])
+    simp only [List.cons_append, userStripGo, hc, if_false]
+    rw [ih (pre ++ [c]) ht]
+    simp
+
+theorem userStripGo_eq_userSplit (es : List (Bytes × Bytes)) (recip : Bytes) :
+    userStripGo es [] recip = userSplit es recip := by
+  rw [userStripGo_eq]
+  unfold userSplit
+  simp
+
+theorem stripvdom_eq_named (t : Tables) (recip : Bytes) :
+    stripvdom t recip = namedRecipient t.locals t.vdoms recip := by
   unfold stripvdom namedRecipient
   rw [domainOf_eq_domainPart]
   cases domainPart recip with
   | none => rfl
   | some d =>
-    simp only [firstHit_eq_governing]
-    cases governing es d <;> rfl
+    simp only [firstHit_eq_governing, cmMember_eq_isLocal, userStripGo_eq_userSplit]
+    split
+    · rfl
+    · cases userSplit t.vdoms recip with
+      | some r => rfl
+      | none => cases governing t.vdoms d <;> rfl
+
+/-! ### the literal in-place loop equals the forward pass -/
+
+theorem scanAt_get (s : Bytes) (pos i : Nat) :
+    (scanAt s pos)[i]? = if i = pos ∧ s[pos]? = some LF ∧ s[pos - 1]? = some LF then some SLASH else s[i]? := by
+  unfold scanAt
+  by_cases h : s[pos]? = some LF ∧ s[pos - 1]? = some LF
+  · simp only [h, and_self, if_true, and_true]
+    rw [List.getElem?_set]
+    by_cases hi : pos = i
+    · subst hi
+      have : pos < s.length := by
+        have := h.1
+        rcases Nat.lt_or_ge pos s.length with hl | hl
+        · exact hl
+        · rw [List.getElem?_eq_none hl] at this; cases this
+      simp [this]
+    · have : ¬ i = pos := fun e => hi e.symm
+      simp [hi, this]
+  · simp [h]
+
+theorem scanDown_get (n : Nat) (s : Bytes) (i : Nat) :
+    (scanDown n s)[i]? =
+      if 1 ≤ i ∧ i ≤ n ∧ s[i]? = some LF ∧ s[i - 1]? = some LF then some SLASH else s[i]? := by
+  induction n generalizing s with
+  | zero =>
+    simp only [scanDown]
+    have : ¬ (1 ≤ i ∧ i ≤ 0 ∧ s[i]? = some LF ∧ s[i - 1]? = some LF) := by omega
+    rw [if_neg this]
+  | succ n ih =>
+    simp only [scanDown]
+    rw [ih]
+    by_cases hi : i ≤ n
+    · have h1 : ¬ i = n + 1 := by omega
+      have h2 : ¬ i - 1 = n + 1 := by omega
+      have h3 : i ≤ n + 1 := by omega
+      simp [scanAt_get, h1, h2, hi, h3]
+    · by_cases he : i = n + 1
+      · subst he
+        have h1 : ¬ (n + 1 ≤ n) := by omega
+        simp [scanAt_get, h1]
+      · have h1 : ¬ i ≤ n + 1 := by omega
+        simp [scanAt_get, hi, he, h1]
+
+theorem scanFrom_get (p : Bool) (s : Bytes) (i : Nat) :
+    (scanFrom p s)[i]? =
+      if i + 1 < s.length ∧ s[i]? = some LF ∧ (if i = 0 then p = true else s[i - 1]? = some LF)
+      then some SLASH else s[i]? := by
+  induction s generalizing p i with
+  | nil => simp [scanFrom]
+  | cons c t ih =>
+    cases t with
+    | nil =>
+      have : ¬ (i + 1 < 1) := by omega
+      simp [scanFrom, this]
+    | cons d u =>
+      simp only [scanFrom]
+      cases i with
+      | zero =>
+        by_cases hc : c = LF <;> cases p <;> simp [hc]
+      | succ j =>
+        simp only [List.getElem?_cons_succ]
+        rw [ih]
+        cases j with
+        | zero =>
+          by_cases hc : c = LF <;> simp [hc]
+        | succ k => simp
+
+theorem scanInPlace_eq (s : Bytes) : scanInPlace s = scanFrom false s := by
+  apply List.ext_getElem?
+  intro i
+  unfold scanInPlace
+  rw [scanDown_get, scanFrom_get]
+  by_cases h0 : i = 0
+  · subst h0; simp
+  · have e1 : (1 ≤ i ∧ i ≤ s.length - 2 ∧ s[i]? = some LF ∧ s[i - 1]? = some LF) ↔
+        (i + 1 < s.length ∧ s[i]? = some LF ∧ s[i - 1]? = some LF) := by
+      constructor
+      · intro ⟨_, h2, h3, h4⟩
+        have : i < s.length := by
+          rcases Nat.lt_or_ge i s.length with hl | hl
+          · exact hl
+          · rw [List.getElem?_eq_none hl] at h3; cases h3
+        exact ⟨by omega, h3, h4⟩
+      · intro ⟨h1, h3, h4⟩
+        exact ⟨by omega, by omega, h3, h4⟩
+    simp only [h0, if_false]
+    by_cases hc : (i + 1 < s.length ∧ s[i]? = some LF ∧ s[i - 1]? = some LF)
+    · rw [if_pos (e1.mpr hc), if_pos hc]
+    · rw [if_neg (fun h => hc (e1.mp h)), if_neg hc]
 
 /-! ### addbounce(): closed form of the text and its paragraph structure -/
 
@@ -301,10 +465,10 @@ theorem stripvdom_eq_named (es : List (Bytes × Bytes)) (recip : Bytes) :
 def chomp1 (r : Bytes) : Bytes := if r.getLast? = some LF then r.dropLast else r
 
 /-- the recipient as it is shown: prefix removed, LF as '_' -/
-def shown (es : List (Bytes × Bytes)) (recip : Bytes) : Bytes := (stripvdom es recip).map lf2us
+def shown (es : Tables) (recip : Bytes) : Bytes := (stripvdom es recip).map lf2us
 
 /-- everything `addbounce` writes except the two final LFs, before the scan -/
-def rawPara (es : List (Bytes × Bytes)) (recip report : Bytes) : Bytes :=
+def rawPara (es : Tables) (recip report : Bytes) : Bytes :=
   LANGLE :: (shown es recip ++ [RANGLE, COLON] ++ (if report = [] then [] else LF :: chomp1 report))
 
 theorem getLast_split (r : Bytes) (h : r.getLast? = some LF) : r = r.dropLast ++ [LF] := by
@@ -321,7 +485,7 @@ theorem getLast_split (r : Bytes) (h : r.getLast? = some LF) : r = r.dropLast ++
 
 theorem lf2us_langle : lf2us LANGLE = LANGLE := by simp [lf2us, LANGLE, LF]
 
-theorem addbounceText_form (es : List (Bytes × Bytes)) (recip report : Bytes) :
+theorem addbounceText_form (es : Tables) (recip report : Bytes) :
     addbounceText es recip report = squashAll false (rawPara es recip report) ++ [LF, LF] := by
   have key : ∀ t4, t4 = rawPara es recip report ++ [LF] →
       scanFrom false t4 ++ [LF] = squashAll false (rawPara es recip report) ++ [LF, LF] := by
@@ -343,7 +507,7 @@ theorem addbounceText_form (es : List (Bytes × Bytes)) (recip report : Bytes) :
     · have hb : (report.getLast? != some LF) = true := by simpa using hl
       simp [he, hb, hl, rawPara, shown, chomp1, hr, lf2us_langle]
 
-theorem lf_not_mem_shown (es : List (Bytes × Bytes)) (recip : Bytes) : LF ∉ shown es recip := by
+theorem lf_not_mem_shown (es : Tables) (recip : Bytes) : LF ∉ shown es recip := by
   unfold shown
   intro h
   rw [List.mem_map] at h
@@ -353,28 +517,28 @@ theorem lf_not_mem_shown (es : List (Bytes × Bytes)) (recip : Bytes) : LF ∉ s
   · simp [hc, USCORE, LF] at ha
   · simp [hc] at ha
 
-theorem lf_not_mem_hdr (es : List (Bytes × Bytes)) (recip : Bytes) : LF ∉ shown es recip ++ [RANGLE, COLON] := by
+theorem lf_not_mem_hdr (es : Tables) (recip : Bytes) : LF ∉ shown es recip ++ [RANGLE, COLON] := by
   intro h
   rw [List.mem_append] at h
   cases h with
   | inl h => exact lf_not_mem_shown es recip h
   | inr h => simp [RANGLE, COLON, LF] at h
 
-theorem recipLine_eq (es : List (Bytes × Bytes)) (recip : Bytes) :
+theorem recipLine_eq (es : Tables) (recip : Bytes) :
     recipLine (stripvdom es recip) = LANGLE :: (shown es recip ++ [RANGLE, COLON]) ++ [LF] := by
   have : (fun c : Byte => if c = LF then (95 : Byte) else c) = lf2us := by
     funext c; simp [lf2us, USCORE]
   simp [recipLine, shown, this, LANGLE, RANGLE, COLON]
 
 /-- the scanned text for an empty report: just `<recipient>:` -/
-theorem scanned_nil (es : List (Bytes × Bytes)) (recip : Bytes) :
+theorem scanned_nil (es : Tables) (recip : Bytes) :
     squashAll false (rawPara es recip []) = LANGLE :: (shown es recip ++ [RANGLE, COLON]) := by
   have := squashAll_lffree LANGLE (shown es recip ++ [RANGLE, COLON]) [] false (by simp [LANGLE, LF]) (lf_not_mem_hdr es recip)
   simpa [rawPara, squashAll] using this
 
 /-- the scanned text for a non-empty report: recipient line, then the report (minus one final LF)
 with every LF that follows an LF shown as '/' -/
-theorem scanned_cons (es : List (Bytes × Bytes)) (recip report : Bytes) (hr : report ≠ []) :
+theorem scanned_cons (es : Tables) (recip report : Bytes) (hr : report ≠ []) :
     squashAll false (rawPara es recip report) = recipLine (stripvdom es recip) ++ squashAll true (chomp1 report) := by
   have := squashAll_lffree LANGLE (shown es recip ++ [RANGLE, COLON]) (LF :: chomp1 report) false (by simp [LANGLE, LF]) (lf_not_mem_hdr es recip)
   have e : rawPara es recip report = LANGLE :: (shown es recip ++ [RANGLE, COLON]) ++ LF :: chomp1 report := by
@@ -384,7 +548,7 @@ theorem scanned_cons (es : List (Bytes × Bytes)) (recip report : Bytes) (hr : r
 
 /-- `addbounce` writes: the recipient line, the report with every LF that follows an LF shown as
 '/', and one empty line (two if the report ended in an empty line of its own) -/
-theorem addbounceText_shape (es : List (Bytes × Bytes)) (recip report : Bytes) :
+theorem addbounceText_shape (es : Tables) (recip report : Bytes) :
     addbounceText es recip report =
       recipLine (stripvdom es recip) ++ squashAll true (chomp1 report)
         ++ (if report = [] then [LF] else [LF, LF]) := by
@@ -407,23 +571,23 @@ theorem endSt_lffree (a : Bytes) (s : PSt) (hm : LF ∉ a) (hne : a ≠ []) : en
     | cons d u => cases s <;> simp [endSt, hc, ih .mid ht (by simp)]
 
 /-- the paragraph a reader sees for one `addbounce` call -/
-def paraCore (es : List (Bytes × Bytes)) (recip report : Bytes) : Bytes :=
+def paraCore (es : Tables) (recip report : Bytes) : Bytes :=
   if endSt .blank (squashAll false (rawPara es recip report)) = .bol
   then squashAll false (rawPara es recip report)
   else squashAll false (rawPara es recip report) ++ [LF]
 
-theorem inPara_rawPara (es : List (Bytes × Bytes)) (recip report : Bytes) :
+theorem inPara_rawPara (es : Tables) (recip report : Bytes) :
     inPara .blank (squashAll false (rawPara es recip report)) = true := by
   unfold rawPara
   rw [squashAll_cons]
   simp [inPara, (inPara_squashAll _).1, LANGLE, LF]
 
-theorem scanned_ne (es : List (Bytes × Bytes)) (recip report : Bytes) :
+theorem scanned_ne (es : Tables) (recip report : Bytes) :
     squashAll false (rawPara es recip report) ≠ [] := by
   unfold rawPara; rw [squashAll_cons]; simp
 
 /-- **One call, one paragraph**, whatever follows in the file. -/
-theorem paras_addbounceText (es : List (Bytes × Bytes)) (recip report rest : Bytes) :
+theorem paras_addbounceText (es : Tables) (recip report rest : Bytes) :
     paras .blank (addbounceText es recip report ++ rest) = paraCore es recip report :: paras .blank rest := by
   rw [addbounceText_form]
   have hin := inPara_rawPara es recip report
@@ -438,7 +602,7 @@ theorem paras_addbounceText (es : List (Bytes × Bytes)) (recip report rest : By
   | bol => simp [paras, pprep]
   | mid => simp [paras, pprep, pcons]
 
-theorem paras_bounceFile (es : List (Bytes × Bytes)) (fails : List (Bytes × Bytes)) (rest : Bytes) :
+theorem paras_bounceFile (es : Tables) (fails : List (Bytes × Bytes)) (rest : Bytes) :
     paras .blank (bounceFile es fails ++ rest) = fails.map (fun f => paraCore es f.1 f.2) ++ paras .blank rest := by
   induction fails with
   | nil => simp [bounceFile]
@@ -447,7 +611,7 @@ theorem paras_bounceFile (es : List (Bytes × Bytes)) (fails : List (Bytes × By
     simp only [bounceFile, List.append_assoc, paras_addbounceText, ih, List.map_cons, List.cons_append]
 
 /-- the paragraph is what was written minus the final empty line(s) -/
-theorem paraCore_prefix (es : List (Bytes × Bytes)) (recip report : Bytes) :
+theorem paraCore_prefix (es : Tables) (recip report : Bytes) :
     addbounceText es recip report = paraCore es recip report ++ [LF] ∨
     addbounceText es recip report = paraCore es recip report ++ [LF, LF] := by
   rw [addbounceText_form]
@@ -457,7 +621,7 @@ theorem paraCore_prefix (es : List (Bytes × Bytes)) (recip report : Bytes) :
   · left; simp [h]
 
 /-- for an empty report the paragraph is the recipient line alone -/
-theorem paraCore_nil (es : List (Bytes × Bytes)) (recip : Bytes) :
+theorem paraCore_nil (es : Tables) (recip : Bytes) :
     paraCore es recip [] = recipLine (stripvdom es recip) := by
   unfold paraCore
   rw [scanned_nil, recipLine_eq]
@@ -471,7 +635,7 @@ theorem paraCore_nil (es : List (Bytes × Bytes)) (recip : Bytes) :
   simp
 
 /-- the paragraph starts with the recipient line -/
-theorem recipLine_prefix_paraCore (es : List (Bytes × Bytes)) (recip report : Bytes) :
+theorem recipLine_prefix_paraCore (es : Tables) (recip report : Bytes) :
     recipLine (stripvdom es recip) <+: paraCore es recip report := by
   by_cases hr : report = []
   · subst hr; rw [paraCore_nil]; exact List.prefix_refl _
@@ -480,6 +644,21 @@ theorem recipLine_prefix_paraCore (es : List (Bytes × Bytes)) (recip report : B
     split
     · exact ⟨_, rfl⟩
     · exact ⟨squashAll true (chomp1 report) ++ [LF], by simp⟩
+
+theorem namedInOrder_cores (es : Tables) (fails : List (Bytes × Bytes)) :
+    NamedInOrder es.locals es.vdoms fails (fails.map (fun f => paraCore es f.1 f.2)) := by
+  induction fails with
+  | nil => simp [NamedInOrder]
+  | cons f fs ih =>
+    simp only [List.map_cons, NamedInOrder]
+    refine ⟨?_, ih⟩
+    rw [← stripvdom_eq_named]
+    exact recipLine_prefix_paraCore es f.1 f.2
+
+theorem paragraphs_bounceFile (es : Tables) (fails : List (Bytes × Bytes)) :
+    paragraphs (bounceFile es fails) = fails.map (fun f => paraCore es f.1 f.2) := by
+  have := paras_bounceFile es fails []
+  simpa [paragraphs, paras] using this
 
 /-- the last '@' of `x ++ a` is the last '@' of `a` when `a` has one -/
 theorem domainOf_append (x a d : Bytes) (h : domainOf a = some d) : domainOf (x ++ a) = some d := by
